@@ -51,6 +51,103 @@ func (cx *Ctx) handlerTargets(v ssa.Value) []*ssa.Function {
 	case *ssa.Function:
 		return []*ssa.Function{x}
 	case *ssa.Call:
+		// a handler wrapped by a module function - observe(name, next) returning next or a closure around it: the
+		// targets of this very call are the closures the wrapper makes and the handlers passed to this call
+		if f := calleeOf(x); f != nil && f.Blocks != nil && f.Pkg != nil && isModulePath(f.Pkg.Pkg.Path()) {
+			var out []*ssa.Function
+			seen := map[*ssa.Function]bool{}
+			add := func(fs []*ssa.Function) {
+				for _, h := range fs {
+					if !seen[h] {
+						seen[h] = true
+						out = append(out, h)
+					}
+				}
+			}
+			argOf := func(p *ssa.Parameter) ssa.Value {
+				for i, q := range f.Params {
+					if q == p && i < len(x.Call.Args) {
+						return x.Call.Args[i]
+					}
+				}
+				return nil
+			}
+			ok := true
+			for _, ret := range returnsOf(f) {
+				if len(ret.Results) != 1 {
+					ok = false
+					break
+				}
+				var vals []ssa.Value
+				var collect func(v ssa.Value, d int)
+				collect = func(v ssa.Value, d int) {
+					if phi, isPhi := v.(*ssa.Phi); isPhi && d < 4 {
+						for _, e := range phi.Edges {
+							collect(e, d+1)
+						}
+						return
+					}
+					vals = append(vals, v)
+				}
+				collect(ret.Results[0], 0)
+				for _, rv := range vals {
+					for {
+						if ct, isCT := rv.(*ssa.ChangeType); isCT {
+							rv = ct.X
+							continue
+						}
+						break
+					}
+					// a captured parameter lives in a cell: `return next` loads it
+					if ld, isLd := rv.(*ssa.UnOp); isLd && ld.Op == token.MUL {
+						if cell, isCell := ld.X.(*ssa.Alloc); isCell {
+							if st := cx.Fx.storesToCell(cell); len(st) == 1 {
+								if p, isP := st[0].(*ssa.Parameter); isP {
+									rv = p
+								}
+							}
+						}
+					}
+					switch y := rv.(type) {
+					case *ssa.Parameter:
+						if a := argOf(y); a != nil {
+							add(cx.handlerTargets(a))
+						} else {
+							ok = false
+						}
+					case *ssa.MakeClosure:
+						cl := y.Fn.(*ssa.Function)
+						add([]*ssa.Function{cl})
+						// function-typed parameters of the wrapper the closure captures: the wrapped handlers
+						for _, b := range y.Bindings {
+							var p *ssa.Parameter
+							switch z := b.(type) {
+							case *ssa.Parameter:
+								p = z
+							case *ssa.Alloc:
+								if st := cx.Fx.storesToCell(z); len(st) == 1 {
+									p, _ = st[0].(*ssa.Parameter)
+								}
+							}
+							if p == nil {
+								continue
+							}
+							if _, isSig := p.Type().Underlying().(*types.Signature); !isSig {
+								continue
+							}
+							if a := argOf(p); a != nil {
+								add(cx.handlerTargets(a))
+							}
+						}
+					default:
+						ok = false
+					}
+				}
+			}
+			if ok && len(out) > 0 {
+				return out
+			}
+		}
 		tg, _ := cx.Fx.funcTargets(x)
 		return tg
 	}
@@ -115,7 +212,7 @@ func (cx *Ctx) routes() []routeInfo {
 					r = &rt{p: w.InstrPos(st)}
 					byObj[fa.X] = r
 				}
-				switch fieldVar(fa.X.Type(), fa.Field).Name() {
+				switch fname(fieldVar(fa.X.Type(), fa.Field)) {
 				case "Endpoint":
 					if c, ok := st.Val.(*ssa.Call); ok && strings.HasSuffix(calleeName(c), "Endpoint).Relative") && len(c.Call.Args) == 1 {
 						r.ep = "Relative(" + fx.path(c.Call.Args[0]) + ")"
